@@ -187,7 +187,7 @@ var wirePlans = []string{"whole", "header-split", "two", "many", "mtu", "mtu"}
 func wireCase(i int, root *vh.Rng, pl *pool) *wireRes {
 	rng := root.Derive("wire", i)
 	res := &wireRes{Idx: i, Counts: map[string]int64{}}
-	res.Class = []string{"honest", "honest", "raw", "oversize"}[i%4]
+	res.Class = []string{"honest", "honest", "raw", "oversize", "honest", "hostile-reader", "raw", "ping-flood"}[i%8]
 	p, err := newWirePair()
 	if err != nil {
 		res.Dropped = "cannot set up the loopback pair: " + err.Error()
@@ -354,6 +354,152 @@ func wireCase(i int, root *vh.Rng, pl *pool) *wireRes {
 		}
 		<-done
 		res.Nontrivial = true
+	case "hostile-reader":
+		// one valid message, then one mutated encoding (the decoder phase's generator), through the real reader: whatever
+		// the reader hands to its caller must be what DecodeMessage makes of those bytes - a well-formed message or an
+		// error (the reader then stops), never a half-decoded message with no error
+		mi := rng.Intn(1 << 20)
+		mu := makeMutated(root, pl, mi)
+		if len(mu.input) < 2 || len(mu.input) > recvLimit {
+			res.Dropped = "mutated input not sendable as a frame"
+			return res
+		}
+		typ := int(binary.BigEndian.Uint16(mu.input[:2]))
+		var reader fractal.MessageReader
+		ctx, cancel := context.WithCancel(context.Background())
+		defer cancel()
+		var validT int
+		switch typ {
+		case 1, 3, 5:
+			reader, validT = fractal.NewRemoteRequestReader(ctx, p.conn), []int{1, 3, 5}[rng.Intn(3)]
+		case 2, 4, 6:
+			reader, validT = fractal.NewRemoteReportReader(ctx, p.conn), []int{2, 4, 6}[rng.Intn(3)]
+		default:
+			if rng.Bool() {
+				reader, validT = fractal.NewRemoteRequestReader(ctx, p.conn), 1
+			} else {
+				reader, validT = fractal.NewRemoteReportReader(ctx, p.conn), 6
+			}
+		}
+		first, _ := genMessage(rng, pl, validT, genOpts{small: true, nq: 1})
+		enc, err := protocol.EncodeMessage(first)
+		if err != nil {
+			res.Dropped = "cannot encode the leading valid message"
+			return res
+		}
+		res.Desc = append(res.Desc, fmt.Sprintf("valid %s, then mutated input #%d (%s: %s), %d bytes", typeLabel(validT), mi, mu.class, trim(mu.desc, 120), len(mu.input)))
+		fmt.Fprintf(&hash, "hostile-%d-%d", validT, mi)
+		sendFrames([][]byte{enc, mu.input})
+		if tc, ok := p.client.(*net.TCPConn); ok {
+			tc.CloseWrite() // nothing follows: a reader that skips the frame sees the end of the stream instead of waiting
+		}
+		res.Nontrivial = true
+		rd := func() (protocol.Message, error, bool) {
+			rctx, rcancel := context.WithTimeout(context.Background(), wireReadDeadline)
+			defer rcancel()
+			m, err := reader.Read(rctx)
+			return m, err, err != nil && rctx.Err() != nil
+		}
+		if m, err, late := rd(); late {
+			res.Dropped = "leading valid message not delivered within the deadline (not judged)"
+			return res
+		} else if err != nil || diffMsg(first, m) != "" {
+			res.violate("wire-valid-message-not-delivered", map[string]string{"msg_type": typeLabel(validT)}, map[string]interface{}{"error": fmt.Sprint(err)})
+			return res
+		}
+		want := safeDecode(mu.input)
+		got, gerr, late := rd()
+		res.add("hostile_frames_through_reader", 1)
+		switch {
+		case late:
+			// the reader skips frames of types it does not accept and waits for the next one: nothing to judge
+			res.add("hostile_frame_skipped_by_reader", 1)
+		case gerr != nil:
+			res.add("hostile_frame_refused_by_reader", 1)
+		default:
+			at := map[string]string{"mutation": mu.class, "msg_type": wireType(mu.input)}
+			det := inputDetail(mu.input)
+			det["mutation"], det["received"] = mu.desc, trim(fmt.Sprintf("%+v", deref(got)), 2000)
+			switch {
+			case want.pv != nil || want.err != nil:
+				det["decode_message_says"] = fmt.Sprint(want.err, want.pv)
+				res.violate("reader-delivered-message-for-undecodable-frame", at, det)
+			case malformed(got) != "":
+				det["malformed"] = malformed(got)
+				res.violate("reader-delivered-malformed-message", at, det)
+			case diffMsg(want.msg, got) != "":
+				det["field"] = diffMsg(want.msg, got)
+				res.violate("reader-delivered-message-differs-from-decode", at, det)
+			default:
+				res.add("hostile_frame_delivered_well_formed", 1)
+			}
+		}
+	case "ping-flood":
+		// the side of a link that answers pings (keepalive interval 0, as the dialling side of a cluster link is set up):
+		// a peer that floods zero-length frames and never reads the answers must be slowed down by back-pressure, not
+		// served with one goroutine per ping
+		p.close()
+		ln, err := net.Listen("tcp", "127.0.0.1:0")
+		if err != nil {
+			res.Dropped = "listen failed"
+			return res
+		}
+		defer ln.Close()
+		accepted := make(chan net.Conn, 1)
+		go func() {
+			c, err := ln.Accept()
+			if err == nil {
+				accepted <- c
+			}
+		}()
+		cl, err := net.DialTimeout("tcp", ln.Addr().String(), 5*time.Second)
+		if err != nil {
+			res.Dropped = "dial failed"
+			return res
+		}
+		defer cl.Close()
+		var sc net.Conn
+		select {
+		case sc = <-accepted:
+		case <-time.After(5 * time.Second):
+			res.Dropped = "accept failed"
+			return res
+		}
+		runtime.GC()
+		g0 := runtime.NumGoroutine()
+		conn, closer, err := connection.NewConn(connection.WithNetConn(sc), connection.KeepaliveInterval(0))
+		if err != nil {
+			res.Dropped = "NewConn failed"
+			return res
+		}
+		_ = conn
+		pings := rng.PickI(20000, 60000, 200000)
+		buf := make([]byte, 4*1000)
+		sent := 0
+		cl.SetWriteDeadline(time.Now().Add(8 * time.Second))
+		for sent < pings {
+			n, err := cl.Write(buf)
+			sent += n / 4
+			if err != nil {
+				break // back-pressure reached the sender: that is the correct outcome
+			}
+		}
+		time.Sleep(300 * time.Millisecond)
+		g1 := runtime.NumGoroutine()
+		res.Desc = append(res.Desc, fmt.Sprintf("%d zero-length frames written to a connection that answers pings, answers never read; goroutines %d -> %d", sent, g0, g1))
+		fmt.Fprintf(&hash, "flood-%d", pings)
+		res.add("ping_flood_frames_written", int64(sent))
+		res.Nontrivial = true
+		if g1-g0 > 200 {
+			res.violate("ping-flood-grows-goroutines", map[string]string{}, map[string]interface{}{"frames_written": sent, "goroutines_before": g0, "goroutines_after": g1, "bytes_sent": sent * 4})
+		}
+		cl.Close()
+		done := make(chan struct{})
+		go func() { closer(); close(done) }()
+		select {
+		case <-done:
+		case <-time.After(20 * time.Second):
+		}
 	case "oversize":
 		// a couple of valid frames first
 		var bodies [][]byte
